@@ -89,6 +89,9 @@ def run(rep, F, ctx):
             '' if ok else 'option reads differ or are incomplete: %s' % reads, [str(reads)])
     setters.mode_selection(rep, F, cg)
     setters.copy_parent_mode(rep, F, cg)
+    import siteguard as _sg
+    _t = engine.load_table('site_guards.json')
+    _sg.site_guard(rep, F, cg, _t, _t['_groups']['C09'])
     return engine.finish(
         rep, 'other', EXPLANATION,
         assumptions=['mash / trim_prefix behave as decided under C15'],
